@@ -730,7 +730,7 @@ def streams(tier):
     except Exception:
         pass  # the checks import again and report the exception
     return [
-        Stream("forest_predict", gen_predict(6000 if th else 500), robust(check_predict), shrink, timeout=3 * ATTEMPT_S),
-        Stream("acq_d", gen_acq(2500 if th else 150), robust(check_acq), shrink, timeout=3 * ATTEMPT_S),
+        Stream("forest_predict", gen_predict(6000 if th else 400), robust(check_predict), shrink, timeout=3 * ATTEMPT_S),
+        Stream("acq_d", gen_acq(2500 if th else 120), robust(check_acq), shrink, timeout=3 * ATTEMPT_S),
         Stream("forest_session", gen_session(1500 if th else 120), robust(check_session), shrink_session, timeout=3 * ATTEMPT_S),
     ]
